@@ -190,7 +190,7 @@ class C03(SingleRun):
     RULE = ("all shapes incl. with-items, retry, joins, loops; pause/resume/cancel/rerun; resting-status clause evaluated at every "
             "quiescent point (nothing in flight, fresh get_next_tasks() empty); non-trivial = a quiescent point was reached with a "
             "status other than succeeded, or >= 2 quiescent points in one run")
-    faults = dict(poll_skip=0.1, poll_twice=0.05, restart=0.03, pause=0.04, resume_early=0.05, cancel=0.015,
+    faults = dict(poll_skip=0.1, poll_twice=0.05, restart=0.03, pause=0.04, resume_early=0.05, cancel=0.04,
                   bad_request=0.02, rerun=0.5, pending=0.05)
 
     def nontrivial(self, r):
